@@ -42,7 +42,11 @@ def main():
                         continue
                     e = engines[cl[1]]
                     if cl[0] == "setup":
-                        e.setup(engine_rec.make_script(h["cfgs"][cl[2]]))
+                        mine = engine_rec.make_script(h["cfgs"][cl[2]])
+                        e.setup(mine)
+                        # the caller goes on using ITS script object (state and times edited in place, another system put in):
+                        # the engine sizes and fills its buffers from the simulation it was set up with
+                        engine_rec._poke(mine)
                     elif cl[0] == "iterate_n":
                         e.iterate_n(int(cl[2]))
                     elif cl[0] == "run":
@@ -59,6 +63,8 @@ def main():
                 script = RDScript(**kw)
                 e = build.make_engine(j["engine"], lib=lib)
                 e.setup(script)
+                if k % 2:
+                    engine_rec._poke(script)
                 e.iterate_n(j["iters"])
                 e.sample()
                 e.get_output()
